@@ -68,6 +68,9 @@ type Conn struct {
 	writeBuf       []byte
 	writeHeaderBuf [8]byte
 	writeHeader    header
+	// closeSent is set once a close frame has been handed to the transport.
+	// It is protected by writeFrameMu.
+	closeSent bool
 
 	closeReadMu   sync.Mutex
 	closeReadCtx  context.Context
